@@ -93,6 +93,7 @@ Definition meth1 (m : string) (r a : val) : outcome :=
   | "saturating_add", VN x, VN y => Ret (VN (if x + y <? W then x + y else USIZE_MAX))
   | "wrapping_sub", VN x, VN y => Ret (VN (wsub x y))
   | "wrapping_add", VN x, VN y => Ret (VN (wadd x y))
+  | "add", VN x, VN y => if x + y <? W then Ret (VN (x + y)) else Ovf     (* <*mut u8>::add: addresses are numbers *)
   | "max", VN x, VN y => Ret (VN (N.max x y))
   | "min", VN x, VN y => Ret (VN (N.min x y))
   | "unwrap_or", VSome v, _ => Ret v
@@ -143,6 +144,8 @@ Fixpoint eval (ft : fntab) (fuel : nat) (en : env) (e : expr) {struct fuel} : ou
           | "max", [VN x; VN y] => Ret (VN (N.max x y))
           | "min", [VN x; VN y] => Ret (VN (N.min x y))
           | "new_unchecked", [v] => Ret v            (* NonNull::new_unchecked *)
+          | "from_size_align", [VN s; VN a] =>        (* Layout::from_size_align: Ok(layout) iff the layout is valid *)
+              Ret (if layout_ok s a then VSome (VRec [("size", VN s); ("align", VN a)]) else VNone)
           | _, _ => Stuck
           end
       end in
